@@ -68,7 +68,11 @@ impl<K, V, const MAX_HEIGHT: usize> Node<K, V, MAX_HEIGHT> {
 
     fn set_next(&self, level: usize, x: *mut Node<K, V, MAX_HEIGHT>) {
         assert!(level < self.pointers.len());
+        #[cfg(blue_verif)]
+        verif::yield_point(3);
         self.pointers[level].store(x, Ordering::Release);
+        #[cfg(blue_verif)]
+        verif::yield_point(4);
     }
 
     fn get_next(&self, level: usize) -> *mut Node<K, V, MAX_HEIGHT> {
@@ -83,12 +87,17 @@ impl<K, V, const MAX_HEIGHT: usize> Node<K, V, MAX_HEIGHT> {
         new_node: *mut Node<K, V, MAX_HEIGHT>,
     ) -> bool {
         assert!(level < self.pointers.len());
-        self.pointers[level].compare_exchange(
+        #[cfg(blue_verif)]
+        verif::yield_point(5);
+        let swapped = self.pointers[level].compare_exchange(
             old_node,
             new_node,
             Ordering::SeqCst,
             Ordering::SeqCst,
-        ) == Ok(old_node)
+        ) == Ok(old_node);
+        #[cfg(blue_verif)]
+        verif::yield_point(6);
+        swapped
     }
 }
 
